@@ -12,7 +12,7 @@ TITLE = "Procedural generators give valid meshes of the promised shape, all para
 LEAN_MODULES = ["Mouette.Props.C14", "Mouette.Props.C14NoUnused", "Mouette.Props.C14Oriented", "Mouette.Props.C14Sphere", "Mouette.Props.C14Cylinder", "Mouette.Props.C14Rings", "Mouette.Props.C14Triangle", "Mouette.Props.C14Geom",
                 "Mouette.Props.C14Euler", "Mouette.Props.C14CylinderTopo", "Mouette.Props.C14RingsTopo", "Mouette.Props.C14GridTopo",
                 "Mouette.Props.C14TriangleTopo", "Mouette.Props.C14Connected", "Mouette.Props.C14Verts", "Mouette.Props.C14Derived", "Mouette.Props.C14Bisect",
-                "Mouette.Props.C14Solids", "Mouette.Props.C14NoRepeat"]
+                "Mouette.Props.C14Solids", "Mouette.Props.C14NoRepeat", "Mouette.Props.C14Distinct"]
 
 # ------------------------------------------------------------------------------------------------
 # translated fragments
@@ -492,6 +492,7 @@ def cases(rng, tier):
             if n == 6 or tier != "quick": sweep += [{"gen": "flat_ring", "ints": [n, c_], "bools": [], "defect": dv} for c_ in (1, 2)]
     sweep += [{"gen": "cylinder", "ints": [n], "bools": [t], "axis": ax} for n in (3, 5, 8) for t in B
               for ax in ([0., 0., 3.], [0., 0., -2.], [1e-9, 0., 1.], [0., 2., 0.], [1., 0., 0.])]
+    sweep += _cyl_family_cases(rng, (5,) if tier == "quick" else (3, 8))
     sweep += [{"gen": "cylindrify_edges", "ints": [4], "bools": [], "no_edges": True},
               {"gen": "spherify_vertices", "ints": [1], "bools": [], "raw_points": True}]
     for c in sweep:
@@ -509,6 +510,31 @@ def cases(rng, tier):
         c["geo"].update(center=[0., 0., 0.], radius=(0.3 if c["gen"] == "torus" else 1.0))
         if c["gen"] == "torus": c["geo"]["R"] = 1.0
     return out + dflt
+
+
+def _cyl_axis_family(rng):
+    """axes P2 - P1 for `cylinder`: exactly +-z; within 5e-5 .. 3 degrees of +-z with non-zero x AND y parts (on both sides of every
+    plausible 'is the axis vertical?' threshold); axis-aligned; generic; the same directions with tiny and huge lengths. Both signs of
+    every axis = both orders of the end points."""
+    out = []
+    for s_ in (1., -1.):
+        out.append([0., 0., 3. * s_])
+        for deg in (5e-5, 1e-3, 0.01, 0.1, 0.5, 1.0, 2.0, 2.5, 3.0, 8.0):
+            t = math.tan(math.radians(deg)); phi = rng.uniform(0.3, 1.2)
+            for sx, sy in ((1, 1), (-1, 1), (1, -1)):
+                out.append([sx * t * math.cos(phi), sy * t * math.sin(phi), s_])
+        out.append([0.02, 0.03 * s_, s_])
+        out += [[2. * s_, 0., 0.], [0., -1.5 * s_, 0.], [s_, 2., 2.], [-0.3, 0.7 * s_, 0.2]]
+    scaled = []
+    for ax in ([0., 0., 1.], [0.02, 0.03, 1.], [0.01, -0.04, -1.], [1., 2., 2.], [0., 1., 0.]):
+        scaled += [[x * 1e-6 for x in ax], [x * 1e6 for x in ax]]
+    return out + scaled
+
+
+def _cyl_family_cases(rng, Ns=(5,)):
+    out = [{"gen": "cylinder", "ints": [n], "bools": [t], "axis": ax} for ax in _cyl_axis_family(rng) for n in Ns for t in (False, True)]
+    out += [{"gen": "cylindrify_edges", "ints": [n], "bools": [], "near_z": True} for n in (3, 6)]
+    return out
 
 
 def _integer_rep(c):
@@ -674,7 +700,7 @@ def _run_gen(case, M, np, P, g, I, Bo, geo, V):
     if g == "spherify_vertices" and case.get("raw_points"):
         return P.spherify_vertices([M.Vec(*p) for p in _SPH_PTS], radius=0.25, n_subdiv=I[0])
     if g == "cylindrify_edges":
-        pl = P.chain_of_vertices(np.array(_CYL_PTS), loop=False)
+        pl = P.chain_of_vertices(np.array(_cyl_pts(case)), loop=False)
         return P.cylindrify_edges(pl, radius=0.1, N=I[0])
     if g == "spherify_vertices":
         pc = M.mesh.from_arrays(np.array(_SPH_PTS))
@@ -683,6 +709,11 @@ def _run_gen(case, M, np, P, g, I, Bo, geo, V):
 
 
 _CYL_PTS = [[0., 0., 0.], [1., 0., 0.], [1., 1., 0.5]]
+_CYL_PTS_NEAR_Z = [[0., 0., 0.], [0.02, 0.03, 1.], [0.05, 0.01, -0.2]]      # both edges within 3 degrees of +z / -z, x and y parts non-zero
+
+
+def _cyl_pts(case):
+    return _CYL_PTS_NEAR_Z if case.get("near_z") else _CYL_PTS
 _SPH_PTS = [[0., 0., 0.], [3., 0., 0.], [0., 3., 1.]]
 
 
@@ -1161,8 +1192,12 @@ def oracle(case):
         rel = side - p1
         t = rel @ ax
         d = np.linalg.norm(rel - np.outer(t, ax), axis=1)
-        if np.max(np.abs(d - r)) > tol * max(1, r): bad("on-cylinder", "side vertices are not at the radius from the axis")
-        if np.max(np.abs(t[:N])) > tol * 10 or np.max(np.abs(t[N:] - h)) > tol * 10: bad("on-cylinder", "rings are not in the end planes")
+        sc = max(1., r, h, float(np.max(np.abs(p1))))       # relative tolerance: lengths from 1e-6 to 1e6 are in the family
+        if np.max(np.abs(d - r)) > tol * sc:
+            bad("on-cylinder", "side vertices are not at the radius from the axis", f"max |dist - radius| = {np.max(np.abs(d - r)):.3e} axis={_cyl_axis(case)}")
+        if np.max(np.abs(t[:N])) > tol * 10 * sc or np.max(np.abs(t[N:] - h)) > tol * 10 * sc:
+            bad("on-cylinder", "rings are not in the end planes (through the end points, orthogonal to the axis)",
+                f"max offset along the axis = {max(np.max(np.abs(t[:N])), np.max(np.abs(t[N:] - h))):.3e} axis={_cyl_axis(case)}")
         if Bo[0] and nV == 2 * N + 2 and (np.max(np.abs(pts[2 * N] - p1)) > 0 or np.max(np.abs(pts[2 * N + 1] - (p1 + axv))) > 1e-12):
             bad("cap-centres", "the cap centres are not the end points")
     if g in ("unit_grid", "unit_triangle") and nV:
@@ -1219,7 +1254,7 @@ def _oracle_tubes_and_balls(case, pts, bad, np):
     g, I = case["gen"], case["ints"]
     tol = 1e-9
     if g == "cylindrify_edges":
-        P_ = np.array(_CYL_PTS); N = I[0]
+        P_ = np.array(_cyl_pts(case)); N = I[0]
         edges = [(0, 1), (1, 2)]
         L = float(np.mean([np.linalg.norm(P_[b] - P_[a]) for a, b in edges]))
         if len(pts) != 2 * N * len(edges): bad("counts", "tube mesh does not have 2N vertices per edge"); return
@@ -1271,7 +1306,7 @@ def _defect_at(N, z):
 
 
 def describe(case):
-    return {k: case[k] for k in ("gen", "ints", "bools", "defaults", "rep", "volume", "colored", "mode", "base", "length_mult", "dim", "uv", "axis", "no_edges", "raw_points") if k in case} | (
+    return {k: case[k] for k in ("gen", "ints", "bools", "defaults", "rep", "volume", "colored", "mode", "base", "length_mult", "dim", "uv", "axis", "no_edges", "raw_points", "near_z") if k in case} | (
         {"defect": case["geo"]["defect"]} if case["gen"] in ("ring", "flat_ring") else {})
 
 
@@ -1318,7 +1353,11 @@ REQUIRED_THEOREMS = ["tetrahedron_closed_oriented", "icosahedron_closed_oriented
                      "spherify_counts", "dual_modes_as_named", "fibonacci_point_on_sphere", "vector_field_points",
                      # round 4: no repeated face for every parametric family, all resolutions (Props/C14NoRepeat.lean)
                      "noRepeatedFace_of", "torus_noRepeatedFace", "unit_grid_noRepeatedFace", "sphere_uv_noRepeatedFace",
-                     "cylinder_noRepeatedFace", "ring_noRepeatedFace", "flat_ring_noRepeatedFace", "unit_triangle_noRepeatedFace"]
+                     "cylinder_noRepeatedFace", "ring_noRepeatedFace", "flat_ring_noRepeatedFace", "unit_triangle_noRepeatedFace",
+                     # round 5: no two faces with the same vertex SET (Props/C14Distinct.lean); normal-form layer for 5 more families
+                     "torus_quads_sameSet", "torus_tris_sameSet", "grid_quads_sameSet", "grid_tris_sameSet", "torus_facesDistinct",
+                     "unit_grid_facesDistinct", "fan_facesDistinct", "flat_ring_facesDistinct", "ring_facesDistinct",
+                     "cylinder_facesDistinct", "facesDistinct_flag"]
 # every function defined in the files C14 is anchored in: what ties it to the Lean side.  "translated": a Generated definition is
 # re-extracted from that body on every run and a REQUIRED theorem (bridge / property) is stated about it; the part after the colon
 # says which parts of the body are covered and what is left to the oracle.
@@ -1332,17 +1371,17 @@ SOURCE_MAP = {
     _S + "octahedron": "translated: `dual_mesh(axis_aligned_cube())` — octahedron_dodecahedron_counts; geometry by the oracle",
     _S + "icosahedron": "translated: face table and the twelve vertex expressions — icosahedron_closed_oriented, icosahedron_on_sphere, icosahedron_regular, icosahedron_outward; the unused `uv` parameter is not looked at",
     _S + "dodecahedron": "translated: `dual_mesh(icosahedron())` — octahedron_dodecahedron_counts; geometry by the oracle",
-    _S + "cylinder": "translated: face loops and vertex loops — cylinderFaces_eq, cylinder_*_euler, cylinder_ring_point",
+    _S + "cylinder": "translated: face loops (normal-form layer cylinderFaces_norm) and vertex loops — cylinderFaces_eq, cylinder_facesDistinct, cylinder_*_euler, cylinder_ring_point",
     _S + "torus": "translated: face loops and vertex loops — torusFaces_norm, torus_*_euler, torus_on_torus_all",
-    _S + "sphere_uv": "translated: face loops and vertex loops — sphere_uvFaces_eq, sphere_uv_euler, sphere_uv_on_sphere_all",
+    _S + "sphere_uv": "translated: face loops (normal-form layer sphere_uvFaces_norm) and vertex loops — sphere_uvFaces_eq, sphere_uv_euler, sphere_uv_on_sphere_all",
     _S + "icosphere": "translated: loop skeleton (rounds of loop_subdivision + projection), both projection statements, base-mesh binding — icosphere_counts, icosphere_projection_on_sphere; the subdivision itself belongs to C13 (counts recurrence restated), manifoldness of the result by the oracle",
     _S + "sphere_fibonacci": "translated: point formula of the sampling loop and the orientation branch — fibonacci_point_on_sphere, fibonacci_outward, triangulated_sphere_face_count; the hull (qhull) is external: topology by the oracle",
     _F + "triangle": "translated: face table and stored corners — triangle_disk, triangle_corners",
     _F + "quad": "translated: both face tables and stored corners — quad_disk, quad_parallelogram_corners",
     _F + "unit_grid": "translated: face loops and vertex loops — unit_gridFaces_norm, unit_grid_*_euler, unit_grid_in_unit_square; the uv attribute by the oracle",
-    _F + "unit_triangle": "translated: face loops and vertex loops — unit_triangleFaces_addressed, unit_triangle_disk (nu >= nv; open finding for nu < nv)",
-    _R + "ring": "translated: face loop, rim vertices, the bisection step with numpy aliasing — ring_*_euler, ring_rim_on_unit_circle, ring_bisect_step_spec; the apex defect reached by the float bisection by the oracle",
-    _R + "flat_ring": "translated: face loop and the chained rotations — flat_ring_euler, flat_ring_angle",
+    _F + "unit_triangle": "translated: face loops (normal-form layer unit_triangleFaces_norm) and vertex loops — unit_triangleFaces_addressed, unit_triangle_disk (nu >= nv; open finding for nu < nv)",
+    _R + "ring": "translated: face loop (normal-form layer ringFaces_norm), rim vertices, the bisection step with numpy aliasing — ring_*_euler, ring_rim_on_unit_circle, ring_bisect_step_spec; the apex defect reached by the float bisection by the oracle",
+    _R + "flat_ring": "translated: face loop (normal-form layer flat_ringFaces_norm) and the chained rotations — flat_ring_euler, flat_ring_facesDistinct, flat_ring_angle",
     _P + "chain_of_vertices": "translated: edge list through the pair iterators — chain_open, chain_loop; vertex positions (from_arrays) by the oracle",
     _P + "vector_field": "translated: edge loop and the two points stored per row — vector_field_edges, vector_field_points; the shape checks / padding by the oracle",
     _D + "dual_mesh": "translated: loop heads, mode dispatch, what each loop appends — dual_counts, dual_modes_as_named; `vertex_to_faces` belongs to C01, the attribute functions to C07: positions and face rings by the oracle",
@@ -1448,8 +1487,23 @@ def search_on_break(rng, broken, mismatches):
             c["geo"] = _geo(rng)
             if rng.random() < 0.25: _integer_rep(c)
         return out
+    fam = _cyl_family_cases(rng, (3, 5, 12))
+    for c in fam: c["geo"] = _geo(rng)
+    # only `cylinder` broke (its translation sites, the files that hold its theorems, mismatches on it): the axis family and the
+    # sweep of its resolution are the whole search
+    cyl_only = bool(broken) or bool(mismatches)
+    for b_ in broken:
+        if b_["kind"] == "lake-build":
+            fs = set(re.findall(r"Mouette/(?:Props|Lemmas|Generated|Model)/(\w+)\.lean", b_["detail"]))
+            if not fs or not fs <= {"C14Verts", "C14Cylinder", "C14CylinderTopo"}: cyl_only = False
+        elif b_["kind"] == "translator":
+            if ":cylinder" not in b_["name"]: cyl_only = False
+        elif b_["kind"] != "missing-theorem": cyl_only = False
+    for m_ in mismatches:
+        if not (isinstance(m_[0], dict) and m_[0].get("gen") in ("cylinder", "cylindrify_edges")): cyl_only = False
     mins = {"unit_grid": (2, 2), "unit_triangle": (2, 2), "torus": (3, 3), "sphere_uv": (1, 3), "cylinder": (3,),
             "ring": (3, 1), "flat_ring": (3, 1)}
+    if cyl_only: mins = {"cylinder": (3,)}
     nb = {"unit_grid": 2, "unit_triangle": 1, "torus": 1, "sphere_uv": 0, "cylinder": 1, "ring": 1, "flat_ring": 0}
     out = []
     for g, lo in mins.items():
@@ -1462,4 +1516,4 @@ def search_on_break(rng, broken, mismatches):
                 if g == "unit_triangle" and ints[0] < ints[1]: ints[0] = ints[1]
                 bools = [rng.random() < 0.5 for _ in range(nb[g])]
                 out.append({"gen": g, "ints": ints, "bools": bools, "geo": _geo(rng)})
-    return out
+    return fam + out
